@@ -31,7 +31,7 @@
 
   Serving never returns a new application: `serve` is a function of `(app, request)` into `Response`.
 -/
-import Flamego.Proofs.Shortcut
+import Flamego.Model.RouterHistory
 import Flamego.Model.Chain
 namespace Flamego.App
 open Flamego.Chain Flamego.Writer
